@@ -264,7 +264,14 @@ func (s *server) ModifyColumnFamilies(ctx context.Context, req *btapb.ModifyColu
 
 	tbl.mu.Lock()
 	defer tbl.mu.Unlock()
-	cfs := tbl.def.ColumnFamilies
+
+	// Apply the modifications to a copy of the family map, so that a request
+	// that fails part-way leaves the table untouched (all or nothing).
+	cfs := make(map[string]*btapb.ColumnFamily, len(tbl.def.ColumnFamilies))
+	for name, cf := range tbl.def.ColumnFamilies {
+		cfs[name] = cf
+	}
+	dropped := false
 
 	for _, mod := range req.Modifications {
 		if create := mod.GetCreate(); create != nil {
@@ -279,15 +286,7 @@ func (s *server) ModifyColumnFamilies(ctx context.Context, req *btapb.ModifyColu
 				return nil, fmt.Errorf("can't delete unknown family %q", mod.Id)
 			}
 			delete(cfs, mod.Id)
-
-			// Purge all data for this column family
-			tbl.rows.Ascend(func(r *btpb.Row) bool {
-				r, changed := scrubRow(r, tbl.cols())
-				if changed {
-					tbl.updateRow(r)
-				}
-				return true
-			})
+			dropped = true
 		} else if modify := mod.GetUpdate(); modify != nil {
 			cf, ok := cfs[mod.Id]
 			if !ok {
@@ -295,8 +294,22 @@ func (s *server) ModifyColumnFamilies(ctx context.Context, req *btapb.ModifyColu
 			}
 			// assume that we ALWAYS want to replace by the new setting
 			// we may need partial update through
-			cf.GcRule = modify.GcRule
+			ncf := proto.Clone(cf).(*btapb.ColumnFamily)
+			ncf.GcRule = modify.GcRule
+			cfs[mod.Id] = ncf
 		}
+	}
+
+	tbl.def.ColumnFamilies = cfs
+	if dropped {
+		// Purge all data of the dropped column families
+		tbl.rows.Ascend(func(r *btpb.Row) bool {
+			r, changed := scrubRow(r, tbl.cols())
+			if changed {
+				tbl.updateRow(r)
+			}
+			return true
+		})
 	}
 
 	s.storage.SetTableMeta(tbl.def)
